@@ -159,6 +159,15 @@ def run(F, rep, tier):
             rep.viol('R11.1', '%s|len-next-agreement' % base, '%s: %s' % (ty, '; '.join(bad)), F.body(nxt).loc(0))
         else:
             rep.ok('R11.1', inst, 'consistent')
+    # a slice whose bounds cross is empty: the length of a materialised slice is max(hi - lo, 0), never |hi - lo|
+    for p_ in sorted(F.bodies_raw):
+        if '::promoted' in p_ or not re.search(r'pythonic_slice(_obj)?$', p_.split('::{closure')[0]):
+            continue
+        ab_ = [c for c in F.body(p_).calls if c.target.rsplit('::', 1)[-1] in ('unsigned_abs', 'abs', 'abs_diff', 'wrapping_abs')]
+        if ab_:
+            rep.viol('R11.4', '%s|abs-length' % p_, '%s takes an absolute value of a bound difference (%s): a slice with crossed bounds (s[4:2]) gets |hi - lo| elements instead of none' % (p_, ab_[0].target.rsplit('::', 1)[-1]), ab_[0].loc())
+        else:
+            rep.ok('R11.4', '%s slice length' % p_, 'no absolute value of bound differences')
     # ---------------- R11.8
     rep.rule('R11.8', 'iterate(a, f) yields an element before it applies f to it: in the ready (Ok) state Iterate::next returns Some(Ok(current)) '
              'on every path - a failure or break of the step function is stored for the following call, it does not replace the element that '
